@@ -45,7 +45,7 @@ def make_fn(idx, op, k, params):
     return ns[f"comp_{idx}"]
 
 def gen_case(rng):
-    n = rng.randint(2, 8)
+    n = rng.randint(2, 8); cyclic = rng.random() < 0.12
     nodes = []
     for i in range(n):
         r = rng.random()
@@ -58,6 +58,7 @@ def gen_case(rng):
             op = rng.choice(["add", "add", "sumOpt", "sumOpt", "ident", "const", "constNone", "raise", "firstOf", "firstOf", "lazyIfNeg"])
             def src():
                 if rng.random() < 0.08: return None
+                if cyclic and rng.random() < 0.35: return rng.randrange(0, n)      # any node, itself and later ones included: may close a cycle
                 return rng.randrange(0, i)
             if op in ("add", "sumOpt"):
                 ps = [{"lzy": False, "acceptsNone": rng.random() < 0.5, "accepts": ["int"], "src": src()} for _ in range(rng.randint(1, 3))]
@@ -67,7 +68,7 @@ def gen_case(rng):
                 ps = [{"lzy": False, "acceptsNone": rng.random() < 0.5, "accepts": ["int"], "src": src()} for _ in range(rng.randint(0, 2))]
             else:
                 ps = [{"lzy": False, "acceptsNone": True if op == "firstOf" else rng.random() < 0.5, "accepts": ["int"], "src": src()},
-                      {"lzy": True, "acceptsNone": rng.random() < 0.5, "accepts": ["int"], "src": rng.randrange(0, i)}]
+                      {"lzy": True, "acceptsNone": rng.random() < 0.5, "accepts": ["int"], "src": (src() if cyclic else None) or rng.randrange(0, i)}]
             nodes.append({"kind": "comp", "op": op, "k": rng.randint(0, 5), "params": ps})
     inputs = []
     for i, nd in enumerate(nodes):
@@ -155,17 +156,24 @@ def gen(rng: random.Random, tier: str):
 
 def run(case: dict, lean: Lean) -> Outcome:
     _imports()
+    margs = {"nodes": case["nodes"], "inputs": case["inputs"], "requests": case["requests"], "defaults": [[pn, tgt] for pn, tgt in final_defaults(case).items()]}
     try:
         pipe = build_real(case)
-    except Exception as e:                      # construction rejected: same for model (cycles cannot be generated), skip class
-        return Outcome(True, True, (), {"build_error": type(e).__name__})
+    except PipelineError as e:
+        # the builder refused the wiring: the model's `validate` must refuse it too (cyclic wirings are rejected), and only those
+        valid = lean.call("c02.run", {"variant": "repaired", **margs})["valid"]
+        ok = (valid is False)
+        return Outcome(ok, ok, ("wiring rejected at build time",), {"build_error": str(e)[:80], "model_valid": valid}, None)
+    except Exception as e:
+        return Outcome(False, False, ("build raised",), {"build_error": type(e).__name__ + ": " + str(e)[:80]}, None)
     real = run_real(pipe, case)
     # default connections are resolved inside the model (`LK.Cfg.resolve`), from the builder's defaults as they stand at the last build
     args = {"nodes": case["nodes"], "inputs": case["inputs"], "requests": case["requests"], "defaults": [[pn, tgt] for pn, tgt in final_defaults(case).items()]}
     as_is = lean.call("c02.run", {"variant": "asIs", **args})
     rep = lean.call("c02.run", {"variant": "repaired", **args})
-    corr = real in (as_is, rep)
-    spec = real["result"] == rep["result"] and real["log"] == rep["log"]     # run_eq_denote + exec_at_most_once are about `repaired`
+    valid = rep.pop("valid"); as_is.pop("valid", None)
+    corr = real in (as_is, rep) and valid          # the builder accepted the wiring, so the model's validate must accept it
+    spec = real["result"] == rep["result"] and real["log"] == rep["log"] and valid     # run_eq_denote + exec_at_most_once are about `repaired`
     classes = []
     nodes = case["nodes"]
     if len(set(case["requests"])) < len(case["requests"]): classes.append("node requested twice")
